@@ -1943,7 +1943,7 @@ func bodyFreshCheck(c *Ctx, dec *ssa.Function) {
 	for fn := range c.Facts.Reach(dec) {
 		fns = append(fns, fn)
 	}
-	sort.Slice(fns, func(i, j int) bool { return fns[i].Pos() < fns[j].Pos() })
+	sort.Slice(fns, func(i, j int) bool { return ir.PosLess(fns[i].Pos(), fns[j].Pos()) })
 	for _, fn := range fns {
 		for _, call := range staticCallsIn(fn) {
 			if seen[call] || bytesDecoder(ir.Callee(call.Call)) == nil || len(call.Call.Args) != 2 {
@@ -1991,7 +1991,7 @@ func lengthPrimCheck(c *Ctx, dec *ssa.Function) {
 			fns = append(fns, fn)
 		}
 	}
-	sort.Slice(fns, func(i, j int) bool { return fns[i].Pos() < fns[j].Pos() })
+	sort.Slice(fns, func(i, j int) bool { return ir.PosLess(fns[i].Pos(), fns[j].Pos()) })
 	for _, fn := range fns {
 		buf := byteSliceParam(fn)
 		var uv *ssa.Call
@@ -2140,5 +2140,128 @@ func lenBoundCheck(c *Ctx, fn *ssa.Function, uv *ssa.Call, buf *ssa.Parameter) {
 		default:
 			c.Note("LENBOUND (not armed): %s narrows the Uvarint to int at %s without comparing it with the remaining bytes; a length ≥ 2^63 becomes negative and make panics in the list decoder", fn.Name(), pos)
 		}
+	}
+}
+
+// ---------------------------------------------------------------------------
+// EMPTYBODY
+
+func init() {
+	Register(&Rule{ID: "EMPTYBODY", Props: []string{"C05"}, Min: 1,
+		Doc: "binary node format: the body written for an element is the marshal callback's result verbatim behind its length, and the decoder maps length 0 to nil without calling Unmarshal; " +
+			"unless the element encoder refuses an empty marshal result (or writes a presence marker), a non-nil element whose encoding is empty reloads as nil.",
+		Run: runEmptyBody})
+}
+
+func runEmptyBody(c *Ctx) {
+	encFn, ts, err := binaryEncoderTerm(c)
+	if encFn == nil {
+		return
+	}
+	if err != nil {
+		c.Undecided(encFn, c.P.Pos(encFn.Pos()), "element encoder", "the encoder's emission cannot be evaluated: "+err.Error())
+		return
+	}
+	n := 0
+	for _, t := range ts {
+		if t.Kind != "REP" || len(t.Body) == 0 {
+			continue
+		}
+		last := t.Body[len(t.Body)-1]
+		if last.Kind != "B" || !strings.HasPrefix(last.Arg, "M(") || last.Fn == nil {
+			continue // not a list of marshalled elements
+		}
+		n++
+		fn := last.Fn
+		what := "elements of " + strings.TrimPrefix(t.Over, "N.") + " in " + fn.Name()
+		pos := c.P.Pos(fn.Pos())
+		if last.Pos != nil {
+			pos = c.P.InstrPos(last.Pos)
+		}
+		// a presence marker: anything besides the length and the body
+		if len(t.Body) != 2 || t.Body[0].Kind != "U" || t.Body[0].Arg != "len("+last.Arg+")" {
+			c.OK(pos, what, "the element is written with more than length+body ("+emString(t.Body)+"): an empty encoding is distinguishable", false)
+			continue
+		}
+		// the marshal callback's result in fn
+		var bodies []ssa.Value
+		for _, ci := range CallsOf(fn) {
+			call, ok := ci.(*ssa.Call)
+			if !ok || ci.Common().IsInvoke() || ir.Callee(ci.Common()) != nil || len(ci.Common().Args) != 1 {
+				continue
+			}
+			if p, ok := ir.ResolveCell(ci.Common().Value).(*ssa.Parameter); ok {
+				if _, isSig := p.Type().Underlying().(*types.Signature); isSig && call.Referrers() != nil {
+					for _, r := range *call.Referrers() {
+						if e, ok := r.(*ssa.Extract); ok && e.Index == 0 {
+							bodies = append(bodies, e)
+						}
+					}
+				}
+			}
+		}
+		if len(bodies) == 0 {
+			c.Undecided(fn, pos, what, "the call of the element marshaler is not found in "+fn.Name())
+			continue
+		}
+		isLenBody := func(v ssa.Value) bool {
+			a, ok := lenArg(fxStrip(v))
+			if !ok {
+				return false
+			}
+			for _, b := range bodies {
+				if fxStripNoConv(a) == b {
+					return true
+				}
+			}
+			return false
+		}
+		refuses := false
+		ei := ir.ErrorResultIndex(fn.Signature)
+		for _, b := range fn.Blocks {
+			if len(b.Instrs) == 0 {
+				continue
+			}
+			iff, ok := b.Instrs[len(b.Instrs)-1].(*ssa.If)
+			if !ok {
+				continue
+			}
+			bin, ok := iff.Cond.(*ssa.BinOp)
+			if !ok {
+				continue
+			}
+			truth, known := fxCmpConst(bin, isLenBody, fxConst, constant.MakeInt64(0))
+			if !known {
+				continue
+			}
+			emptySide := b.Succs[1]
+			if truth {
+				emptySide = b.Succs[0]
+			}
+			reach := ir.ReachableFrom(emptySide, nil)
+			onlyErrors, any := true, false
+			for _, r := range ir.Returns(fn) {
+				if !reach[r.Block()] {
+					continue
+				}
+				any = true
+				if ei < 0 || ei >= len(r.Results) || ir.IsNilConst(r.Results[ei]) {
+					onlyErrors = false
+				}
+			}
+			// the refusal must not sit inside the loop's normal continuation
+			if any && onlyErrors {
+				refuses = true
+			}
+		}
+		if refuses {
+			c.OK(pos, what, "an empty marshal result is refused with an error: every stored body is non-empty, so length 0 means nil only", false)
+			continue
+		}
+		c.Violation(fn, pos, "an element whose encoding is empty is indistinguishable from nil",
+			fmt.Sprintf("%s writes U(len(body)) body with body = marshal(elem) verbatim and never tests len(body): a non-nil element whose marshalled form is empty (a zero proto message, \"\" under a raw-bytes marshaler) is written exactly like nil (length 0), and the decoder maps length 0 to nil without calling Unmarshal — the value reloads as nil, and a zero-length key makes the version unloadable", fn.Name()))
+	}
+	if n == 0 {
+		c.Undecided(encFn, c.P.Pos(encFn.Pos()), "element encoder", "no list of marshalled elements found in the binary encoder")
 	}
 }
